@@ -516,6 +516,16 @@ func (m *raftMonitor) onRaftMsg(from *simNode, to uint64, group uuid.UUID, msg r
 		if d == nil {
 			return
 		}
+		if msg.Term < d.term {
+			// The product's transport queues messages and sends one at a time: this
+			// acknowledgement left the raft loop in an earlier term than the one the node
+			// has durably reached by now. A leader of the newer term may have replaced the
+			// acknowledged suffix meanwhile (legal: the entries were durable when the
+			// acknowledgement was made, and raft tolerates delayed messages). The durable
+			// log of now says nothing about then.
+			m.s.out.Stat("append_acks_of_an_older_term_not_judged", 1)
+			return
+		}
 		m.s.out.Stat("append_acks_checked_against_durable_state", 1)
 		if d.last < msg.Index {
 			m.viol("persist-before-reveal/append-acknowledged-before-durable/"+gname(m.s, group), "group %s: n%d acknowledges entries up to %d but its durable log ends at %d", shortG(group), from.idx, msg.Index, d.last)
